@@ -555,7 +555,7 @@ def run(ctx):
         "tables of the values the driver-side problem class returns (teacher forced)",
         "the chain rule is assumed: the theorem states that the backward sweep equals the transposed linearised roll-out for the given A_k, B_k, q_k, r_k",
         "the dense factorisation (Eigen LDLT / PartialPivLU) is a parameter `lsolve` with hypothesis R̄·lsolve(R̄,b) = b for the reduced Hessians that occur",
-        "Riccati theorem is the KKT (stationarity) system of the subproblem; global minimality additionally needs convexity of the subproblem (not proved)"]
+        "Riccati: KKT system of the subproblem (no convexity needed) and, under R̄_k positive definite for every stage with symmetric Q_k, R_k, Q_N, unique global minimality (C12_riccati_step_is_minimiser / _is_unique_minimiser); positive definiteness of R̄_k is a hypothesis, the generators use SPD stage Hessians"]
     check_properties(ctx)
     if not build_driver(ctx, "C12"):
         return
